@@ -6,22 +6,44 @@
 package best
 
 //@ type Service
-//@   valid self.clientMonitor != nil && self.chainTime != nil && self.attestationDataProviders != nil
+//@   valid self.clientMonitor != nil && self.chainTime != nil && self.blockRootToSlotCache != nil && self.attestationDataProviders != nil
 //@   valid forall n string :: in(self.attestationDataProviders, n) ==> self.attestationDataProviders[n] != nil
 //@
-//@ // ---- C20: the goroutines a request starts all end, whether or not anybody still listens ----
+//@ // ---- C07: the best valid answer received, an error exactly when none was ----
 //@
-//@ // a node's goroutine sends exactly one message, on one of the two channels it is handed
+//@ // epoch of a slot as answered by the chain time service
+//@ spec func slotEpoch(slot phase0.Slot) phase0.Epoch
+//@ // the validity rule of this strategy: data with a target, and the target is of the slot's own epoch
+//@ spec func validData(d *phase0.AttestationData, slot phase0.Slot) bool = d != nil && d.Target != nil && d.Target.Epoch == slotEpoch(slot)
+//@
+//@ func (*Service).scoreAttestationData
+//@   requires s != nil && (attestationData != nil ==> attestationData.Source != nil && attestationData.Target != nil)
+//@   modifies nothing
+//@
+//@ // a node's goroutine sends exactly one message, on one of the two channels it is handed, and on the response channel
+//@ // only data that passes the validity rule
 //@ func (*Service).attestationData
 //@   thread
 //@   requires s != nil && opts != nil && provider != nil && !closed(respCh) && !closed(errCh)
-//@   // go-eth2-client returns a response with every nil error
-//@   assumes call AttestationData#1 (r, err): err == nil ==> r != nil
+//@   // go-eth2-client returns a response with every nil error, and its decoder refuses attestation data without source
+//@   assumes call AttestationData#1 (r, err): err == nil ==> r != nil && (r.Data != nil ==> r.Data.Source != nil)
+//@   assumes call SlotToEpoch (e): e == slotEpoch(arg0)
+//@   chaninv respCh (m): m != nil && validData(m.attestationData, opts.Slot)
+//@   chaninv errCh (m): m != nil
 //@   exit sends() == 1
 //@
 //@ func (*Service).AttestationData
 //@   requires s != nil && opts != nil
-//@   // nstarted: the number of goroutines started so far. A goroutine is only started while both channels have room
+//@   // slots handed to the strategy are duty slots
+//@   requires opts.Slot <= 9223372036854775807
+//@   chaninv respCh (m): m != nil && validData(m.attestationData, opts.Slot)
+//@   chaninv errCh (m): m != nil
+//@   // ghost history of the responses received so far: got[d][x] <=> a response (data d, score x) was received
+//@   ghost n Int = 0
+//@   ghost got (Array Int (Array Real Bool)) = empty
+//@   at recv respCh: ghost n = n + 1
+//@   at recv respCh: ghost got[msg.attestationData][msg.score] = true
+//@   // C20, nstarted: the number of goroutines started so far. A goroutine is only started while both channels have room
 //@   // for one more message than there are goroutines already: as each sends exactly one message, none can block when
 //@   // the requester has stopped listening
 //@   ghost nstarted Int = 0
@@ -29,3 +51,15 @@ package best
 //@   at call go#1: ghost nstarted = nstarted + 1
 //@   loop 1
 //@     invariant nstarted == nvisited()
+//@   loop 2
+//@     invariant n >= 0 && (bestAttestationData == nil <==> n == 0)
+//@     invariant bestAttestationData != nil ==> validData(bestAttestationData, opts.Slot) && got[bestAttestationData][bestScore]
+//@     invariant forall d *phase0.AttestationData, x float64 :: got[d][x] ==> x <= bestScore && n > 0
+//@   loop 3
+//@     invariant n >= 0 && (bestAttestationData == nil <==> n == 0)
+//@     invariant bestAttestationData != nil ==> validData(bestAttestationData, opts.Slot) && got[bestAttestationData][bestScore]
+//@     invariant forall d *phase0.AttestationData, x float64 :: got[d][x] ==> x <= bestScore && n > 0
+//@   // an error exactly when no valid response was received; otherwise the answer is a valid response that was actually
+//@   // received and no received response scores higher
+//@   ensures result1 != nil <==> n == 0
+//@   ensures result1 == nil ==> result0 != nil && validData(result0.Data, opts.Slot) && got[result0.Data][bestScore] && (forall d *phase0.AttestationData, x float64 :: got[d][x] ==> x <= bestScore)
